@@ -142,6 +142,12 @@ def gen_workload(rng, fmt, ch, kind=None, nops=10, short=False):
        every script is sprinkled with invalid calls and sf_error (h) probes, failing opens on the aux slot h8,
        and calls with a NULL handle, and ends with a digest of every store it used."""
     kind = kind or rng.choice(["w", "rs", "rs", "rw"] if fmt.codec in RDWR_CODECS and fmt.major not in (0x16,) else ["w", "rs", "rs"])
+    # OKI/VOX ADPCM packs two samples per byte: an odd item count makes the codec touch one sample past the caller's buffer
+    # (known finding KF-VOX-ODD, an ASan abort in this harness); the workloads stay inside the codec's contract
+    vox = fmt.codec == 0x21
+
+    def ev(x):
+        return x + (x * ch) % 2 if vox and x > 0 else x
     sr = rng.choice([8000, 8000, 11025, 44100, 48000])
     b = block_hint(fmt)
     wty = rng.choice(["s16", "s16", "s32", "f32", "f64"])
@@ -177,7 +183,7 @@ def gen_workload(rng, fmt, ch, kind=None, nops=10, short=False):
     def write_some(total):
         left = total
         while left > 0:
-            k = min(left, rng.choice([1, 2, 3, 7, b, b + 1, 64, 505, 1024, left, left]))
+            k = ev(min(left, rng.choice([1, 2, 3, 7, b, b + 1, 64, 505, 1024, left, left])))
             unit = rng.choice("if")
             L.append(S.w_line("h0", wty, unit, k if unit == "f" else k * ch, values_for(rng, fmt, wty, k * ch)))
             left -= k
@@ -190,6 +196,7 @@ def gen_workload(rng, fmt, ch, kind=None, nops=10, short=False):
     n = max(1, min(n, 1500))
     if short:
         n = rng.choice([1, 3, b + 1])
+    n = ev(n)
     if kind == "w":
         L.append(opn_w)
         if rng.random() < 0.2:
@@ -197,7 +204,7 @@ def gen_workload(rng, fmt, ch, kind=None, nops=10, short=False):
         write_some(n)
         L += ["close h0", "dump s0 sum", opn_r, "info h0"]
         rty = rng.choice(S.TYS)
-        L += ["r h0 %s i %d" % (rty, (n + b + 16) * ch), "r h0 %s i %d" % (rty, ch), "strerror h0", "close h0"]
+        L += ["r h0 %s i %d" % (rty, ev(n + b + 16) * ch), "r h0 %s i %d" % (rty, ev(1) * ch), "strerror h0", "close h0"]
     elif kind == "rs":
         L.append(opn_w)
         L.append(S.w_line("h0", wty, "f", n, values_for(rng, fmt, wty, n * ch)))
@@ -207,7 +214,7 @@ def gen_workload(rng, fmt, ch, kind=None, nops=10, short=False):
             if r < 0.55:
                 ty = rng.choice(S.TYS)
                 unit = rng.choice("if")
-                m = rng.choice([1, 1, 2, 3, 7, b, b + 1, 33, max(n, 1), n + 1])
+                m = ev(rng.choice([1, 1, 2, 3, 7, b, b + 1, 33, max(n, 1), n + 1]))
                 L.append("r h0 %s %s %d" % (ty, unit, m if unit == "f" else m * ch))
             else:
                 base = rng.choice([0, 0, 0, 1, 2])
@@ -240,23 +247,11 @@ def gen_workload(rng, fmt, ch, kind=None, nops=10, short=False):
     return "\n".join(L) + "\n"
 
 
-# transcript lines that legitimately depend on what other handles did: results of calls made with a NULL handle
-# (sf_error (NULL) / sf_strerror (NULL) / sf_command (NULL, SFC_GET_LOG_INFO)): `strerror null`, `cmd null …`, and the
-# error number the harness prints after a call on a slot that holds no handle (h8 after a failed open).
-def masks_global(op_line, live_aux=False):
-    t = op_line.split(" ")
-    if len(t) > 1 and t[1] == "null":
-        return True
-    return False
-
-
-def null_handle_lines(lines):
-    """indices of ops that go to the library with a NULL handle: ops on a slot whose last open failed / that was closed"""
-    live = {}
-    res = set()
-    return res
-
-
+# Transcript lines that legitimately depend on what other handles did are the results of calls made with a NULL handle:
+# `strerror null`, `cmd null …` (sf_error (NULL), sf_strerror (NULL), sf_command (NULL, SFC_GET_LOG_INFO)), and the error
+# number the harness prints with sf_error (NULL) after a call on a slot that holds no handle (never opened, open failed,
+# closed).  In those lines the error number (and for `cmd null` the returned text) is replaced by `*`; return values of
+# calls on a NULL handle are still compared.
 def mask_line(op_line, out_line, null_slot):
     """canonical form used for the solo/merged comparison"""
     t = op_line.split(" ")
@@ -267,6 +262,32 @@ def mask_line(op_line, out_line, null_slot):
             out_line = re.sub(r"ret=-?\d+", "ret=*", out_line)
             out_line = re.sub(r"data=\S*", "data=*", out_line)
     return out_line
+
+
+WIDTH = {"s16": 4, "s32": 8, "f32": 8, "f64": 16}
+
+
+def trim_reads(op_lines, out_lines):
+    """read lines: keep the `ret` items the call delivered.  What the library leaves in the caller's buffer beyond the
+    returned count is not a result of the call (C05 has its own rule for it); for VOX odd counts and RAW/DWVW it is
+    whatever the codec's staging buffer on the stack held, which varies from process to process."""
+    chans = {}
+    res = []
+    for op, out in zip(op_lines, out_lines):
+        t = op.split(" ")
+        if t[0] == "open" and out.startswith("open=ok"):
+            m = re.search(r" ch=(\d+)", out)
+            chans[t[1]] = int(m.group(1)) if m else 1
+        elif t[0] == "open" and len(t) > 1:
+            chans.pop(t[1], None)
+        if t[0] == "r" and len(t) >= 5 and " data=" in out:
+            m = re.match(r"ret=(-?\d+) (err=\S+) data=(\S*)$", out)
+            if m and not m.group(3).startswith("fnv:"):
+                ret = max(int(m.group(1)), 0)
+                items = ret * (chans.get(t[1], 1) if t[3] == "f" else 1)
+                out = "ret=%s %s data=%s" % (m.group(1), m.group(2), m.group(3)[:items * WIDTH.get(t[2], 0)])
+        res.append(out)
+    return res
 
 
 def track_null_slots(op_lines, out_lines):
